@@ -1688,7 +1688,7 @@ func (p *parser) scanCharSet(caseInsensitive, scanOnly bool) (*CharSet, error) {
 
 	var cc *CharSet
 	if !scanOnly {
-		cc = &CharSet{}
+		cc = &CharSet{building: true}
 	}
 
 	if p.charsRight() > 0 && p.rightChar(0) == '^' {
@@ -1905,8 +1905,13 @@ func (p *parser) scanCharSet(caseInsensitive, scanOnly bool) (*CharSet, error) {
 		return nil, p.getErr(ErrUnterminatedBracket)
 	}
 
-	if !scanOnly && caseInsensitive {
-		cc.addLowercase()
+	if !scanOnly {
+		// all items are in: the set may now be normalised to its negated form
+		cc.building = false
+		cc.canonicalize()
+		if caseInsensitive {
+			cc.addLowercase()
+		}
 	}
 
 	return cc, nil
